@@ -406,6 +406,65 @@ def located_test(fn: ast.FunctionDef, tr: Tr, marker: str) -> str:
     return tr.boolean(found[0].test)
 
 
+def parallel_lists_update(fn: ast.FunctionDef, values: str) -> str:
+    """`add_bracket(self, threshold, x)` of the tax scales: an if/else over `threshold in self.thresholds` whose arms
+    update the two parallel lists `self.thresholds` / `self.<values>`; translated statement by statement to the paired
+    list `s : List (threshold × value)` of the model (`hasT`, `indexT`, `bumpAt`, `bisectLeft/Right`, `insertAt`)."""
+    body = [s for s in fn.body if not (isinstance(s, ast.Expr) and isinstance(s.value, ast.Constant) and isinstance(s.value.value, str))]
+    args = [a.arg for a in fn.args.args]
+    if len(args) != 3 or len(body) != 1 or not isinstance(body[0], ast.If) or not body[0].orelse:
+        raise NotTranslatable("not `if … else …` over three arguments")
+    t, x = args[1], args[2]
+    test = ast.unparse(body[0].test)
+    if test == f"{t} in self.thresholds":
+        cond = "hasT s t"
+    elif test == f"{t} not in self.thresholds":
+        cond = "!(hasT s t)"
+    else:
+        raise NotTranslatable(f"test {test}")
+
+    def arm(stmts: list) -> str:
+        env: dict = {}
+        term = "s"
+        pending_insert = None
+        for st in stmts:
+            src = ast.unparse(st)
+            if isinstance(st, ast.Assign) and len(st.targets) == 1 and isinstance(st.targets[0], ast.Name):
+                name, rhs = st.targets[0].id, ast.unparse(st.value)
+                for py, lean in ((f"self.thresholds.index({t})", "indexT s t"), (f"bisect.bisect_left(self.thresholds, {t})", "bisectLeft s t"),
+                                 (f"bisect.bisect_right(self.thresholds, {t})", "bisectRight s t"), (f"bisect.bisect(self.thresholds, {t})", "bisectRight s t")):
+                    if rhs == py:
+                        env[name] = f"({lean})"
+                        break
+                else:
+                    raise NotTranslatable(f"assignment {src[:50]}")
+                if term != "s":
+                    raise NotTranslatable("an index is taken after the lists were changed")
+                continue
+            m = None
+            if isinstance(st, ast.AugAssign) and isinstance(st.op, ast.Add) and isinstance(st.target, ast.Subscript) \
+                    and ast.unparse(st.target.value) == f"self.{values}" and isinstance(st.target.slice, ast.Name) \
+                    and st.target.slice.id in env and ast.unparse(st.value) == x:
+                term = f"(bumpAt {term} {env[st.target.slice.id]} x)"
+                continue
+            if isinstance(st, ast.Expr) and isinstance(st.value, ast.Call) and isinstance(st.value.func, ast.Attribute) and st.value.func.attr == "insert" \
+                    and len(st.value.args) == 2 and isinstance(st.value.args[0], ast.Name) and st.value.args[0].id in env:
+                which, idx, what = ast.unparse(st.value.func.value), st.value.args[0].id, ast.unparse(st.value.args[1])
+                if pending_insert is None and which == "self.thresholds" and what == t:
+                    pending_insert = idx
+                    continue
+                if pending_insert == idx and which == f"self.{values}" and what == x:
+                    term = f"(insertAt {term} {env[idx]} (t, x))"
+                    pending_insert = None
+                    continue
+            raise NotTranslatable(f"statement {src[:60]}")
+        if pending_insert is not None:
+            raise NotTranslatable("a threshold is inserted without its value")
+        return term
+
+    return f"  if {cond} then {arm(body[0].body)} else {arm(body[0].orelse)}"
+
+
 def _dispatch_to_lean(chain: list) -> str:
     lines = []
     for cond, leaf in chain[:-1]:
@@ -460,6 +519,12 @@ SPECS = [
          marker="unit_weight(period.unit)", vocab={"period.unit": ("base", "unit"), "unit": ("u", "unit")},
          params="(u base : DUnit)", typ="Bool",
          fallback="(decide (unitWeight base > unitWeight u) || (u == DUnit.week && base == DUnit.month))"),
+    dict(name="rate_add_bracket", module="GeneratedScale", file="openfisca_core/taxscales/rate_tax_scale_like.py", cls="RateTaxScaleLike",
+         func="add_bracket", kind="parallel", values="rates", params="(s : OFCore.Sca.Scale) (t x : Rat)", typ="OFCore.Sca.Scale",
+         fallback="OFCore.Sca.addBracket s t x"),
+    dict(name="amount_add_bracket", module="GeneratedScale", file="openfisca_core/taxscales/amount_tax_scale_like.py", cls="AmountTaxScaleLike",
+         func="add_bracket", kind="parallel", values="amounts", params="(s : OFCore.Sca.Scale) (t x : Rat)", typ="OFCore.Sca.Scale",
+         fallback="OFCore.Sca.addBracket s t x"),
     dict(name="holderSet_raises", file=HOLDER, cls="Holder", func="_set", kind="guards", stop_at="should_store_on_disk",
          vocab=V_HOLDER, params="(du pu : DUnit) (sz : Int)", skip=["value = self._to_array(value)"],
          fallback="OFCore.Tie.holderSetGuards du pu sz"),
@@ -524,7 +589,7 @@ def _selector_to_lean(chain: list) -> str:
 
 
 MODULES = {"GeneratedGuards": ("OFCore.TieBase", "OFCore.Generated.Guards"), "GeneratedParam": ("OFCore.Param", "OFCore.Generated.Param"),
-           "GeneratedEngine": ("OFCore.Basic", "OFCore.Generated.Engine")}
+           "GeneratedEngine": ("OFCore.Basic", "OFCore.Generated.Engine"), "GeneratedScale": ("OFCore.TaxScale", "OFCore.Generated.Scale")}
 
 
 def translate(repo: str, module: str = "GeneratedGuards") -> tuple[str, dict]:
@@ -549,6 +614,11 @@ def translate(repo: str, module: str = "GeneratedGuards") -> tuple[str, dict]:
                 body = _chain_to_lean(chain, sp.get("raise_only", False))
                 typ = "Bool"
                 doc = f"{len(chain)} guards of `{sp['cls']}.{sp['func']}` ({sp['file']}), first match decides; `true` = raises"
+            elif sp["kind"] == "parallel":
+                body = parallel_lists_update(fn, sp["values"])
+                typ = sp["typ"]
+                doc = (f"`{sp['cls']}.{sp['func']}` ({sp['file']}): the updates of the parallel lists `thresholds` / `{sp['values']}` "
+                       "translated statement by statement to the paired list of the model")
             elif sp["kind"] == "located":
                 body = "  " + located_test(fn, tr, sp["marker"])
                 typ = sp["typ"]
@@ -585,7 +655,7 @@ def translate(repo: str, module: str = "GeneratedGuards") -> tuple[str, dict]:
     tr_list = ", ".join(f'("{k}", {"true" if v == "translated" else "false"})' for k, v in status.items())
     txt = ("-- REGENERATED from the tree under test by harness/ofverif/translate.py on every run. Do not edit.\n"
            f"import {MODULES[module][0]}\n"
-           f"namespace {MODULES[module][1]}\nopen OFCore\n\n" + "\n".join(defs)
+           f"namespace {MODULES[module][1]}\nopen OFCore" + (" OFCore.Sca" if module == "GeneratedScale" else "") + "\n\n" + "\n".join(defs)
            + f"\ndef translated : List (String × Bool) := [{tr_list}]\n"
            f"end {MODULES[module][1]}\n")
     return txt, status
